@@ -423,12 +423,15 @@ def gen_C13(w, tier):
         def all_elems(R, q=q):
             b, _ = R.base()
             els = []
-            ks = range(q) if q <= 30 or big else sorted(set([0, 1, 2, q - 1] + r.sample(range(q), 8)))
+            if q <= 30 or (big and q <= 60):
+                ks = range(q)
+            else:
+                ks = sorted(set([0, 1, 2, q - 1] + r.sample(range(q), 8 if not big else 30)))
             for k in ks:
                 e, _ = R.smul(b, k)
                 els.append(e)
             return els
-        scal = list(range(-q, 2 * q + 1)) if (q <= 30 or big) else [-q, -1, 0, 1, q - 1, q, q + 1, 2 * q]
+        scal = list(range(-q, 2 * q + 1)) if (q <= 30 or (big and q <= 60)) else [-q, -1, 0, 1, q - 1, q, q + 1, 2 * q] + [r.randrange(-q, 2 * q) for _ in range(60 if big else 0)]
         if len(scal) > 40 and not big:
             scal = r.sample(scal, 40) + [-q, -1, 0, q, 2 * q]
         laws(ps, name, all_elems, scal, 200 if not big else 1200, 60 if not big else 600, ("toy-exhaustive", "set:toy" + ps.kind))
